@@ -21,7 +21,9 @@ class State:
 
 
 def _fp(obj):
-    return util.fingerprint(dict((k, v) for k, v in vars(obj).items()))
+    # public attributes only (the property speaks of "all public attributes"): a private, correctly managed cache that fills as the
+    # object is used is not a change of the model - what it may do to later *results* is judged by the twin comparisons
+    return util.fingerprint(dict((k, v) for k, v in vars(obj).items() if not k.startswith("_")))
 
 
 def model_unchanged(self):
